@@ -32,6 +32,8 @@ CONSTANTS Base, Count,        \* fixed window b, c
           OsFail,             \* TRUE: records are handed to the file in one write call each, which the operating system may cut short
           Gz,                 \* the archive pattern ends in .gz: the final step of a rotation compresses instead of renaming
           MaxOverlap,         \* reconfigurations: a successor appender built while its predecessor is alive
+          ActFull,            \* TRUE: the active path is a name that cannot be written (a device or file system without
+                              \* space): it opens, it is empty, and every write to it fails with "no space left"
           BufFloor,           \* whole units that fit into the 1 KiB BufWriter (2 for 400-byte units, 64 and more for small ones)
           Hist                \* TRUE = carry the operation history (replay emission)
 
@@ -99,12 +101,12 @@ OldRec(i) == [id |-> 0 - (i - Base + 1), sz |-> 1]
 RECURSIVE OldStream(_, _)
 OldStream(S, i) == IF i < Base THEN <<>> ELSE (IF i \in S THEN <<OldRec(i)>> ELSE <<>>) \o OldStream(S, i - 1)
 Init ==
-  /\ \E p \in PreSizes, S \in PreArch :
-       /\ disk = [act |-> IF p < 0 THEN Absent ELSE IF p = 0 THEN File(<<>>) ELSE File(<<[id |-> 0, sz |-> p]>>),
+  /\ \E p \in (IF ActFull THEN {0} ELSE PreSizes), S \in PreArch :
+       /\ disk = [act |-> IF ActFull THEN Full ELSE IF p < 0 THEN Absent ELSE IF p = 0 THEN File(<<>>) ELSE File(<<[id |-> 0, sz |-> p]>>),
                   arch |-> [i \in Idx |-> IF i \in S THEN File(<<OldRec(i)>>) ELSE Absent]]
        /\ W = OldStream(S, Base + Count) \o (IF p > 0 THEN <<[id |-> 0, sz |-> p]>> ELSE <<>>)
        /\ refAct = IF p > 0 THEN <<[id |-> 0, sz |-> p]>> ELSE <<>>
-       /\ hist = IF Hist THEN <<[op |-> "pre", sz |-> p, arch |-> [i \in Idx |-> i \in S]]>> ELSE <<>>
+       /\ hist = IF Hist THEN <<[op |-> "pre", sz |-> p, full |-> ActFull, arch |-> [i \in Idx |-> i \in S]]>> ELSE <<>>
   /\ ref = ArchPos
   /\ writer = Closed
   /\ pc = "down" /\ cur = [id |-> 0, sz |-> 0] /\ ri = 0 /\ after = "none"
@@ -116,6 +118,8 @@ Init ==
 \* truncates; a non-truncating open seeds len from the file's metadata.
 OpenEffect(truncate) ==
   IF writer.open THEN UNCHANGED <<disk, writer, W>>
+  ELSE IF disk.act.k = "full"      \* it opens (with or without truncation) and its size is 0
+       THEN writer' = [open |-> TRUE, len |-> 0, buf |-> <<>>] /\ UNCHANGED <<disk, W>>
   ELSE IF truncate
        THEN /\ disk' = [disk EXCEPT !.act = File(<<>>)]
             /\ writer' = [open |-> TRUE, len |-> 0, buf |-> <<>>]
@@ -212,7 +216,7 @@ GetWriter2 ==
 \* encode + flush: the record reaches the file whole
 \* (a record that encodes to zero bytes leaves no trace in any file; it still goes through the triggers)
 Write ==
-  /\ pc = "write"
+  /\ pc = "write" /\ disk.act.k # "full"
   /\ LET new == writer.buf \o (IF cur.sz = 0 THEN <<>> ELSE <<cur>>) IN
        /\ disk' = IF new = <<>> THEN disk ELSE [disk EXCEPT !.act.d = @ \o new]
        /\ W' = W \o new
@@ -236,8 +240,22 @@ Write ==
 \* smaller it goes to the file directly, fails, and only the torn part exists.  Everything the writer accepted is
 \* counted.  On disk the torn part is written as id + 100000 and the kept remainder as id + 200000; next to each other
 \* they are the whole record (Merge).
+\* The active path cannot be written (ActFull).  The record fits into the BufWriter and is accepted there (and
+\* counted); the flush fails with "no space left", append returns that error at once: no policy is consulted, so
+\* nothing is rolled, and the directory stays exactly as it is.  The BufWriter keeps what it holds and offers it
+\* again with the next flush, which fails the same way; when the appender is dropped it is lost - it was never
+\* acknowledged.  (Instances keep the records small enough for the buffer: BufFloor bounds their total.)
+WriteNoSpace ==
+  /\ pc = "write" /\ disk.act.k = "full"
+  /\ SumSz(writer.buf) + cur.sz <= BufFloor
+  /\ writer' = [writer EXCEPT !.len = @ + cur.sz, !.buf = IF cur.sz = 0 THEN @ ELSE Append(@, cur)]
+  /\ nEnc' = nEnc + 1
+  /\ pc' = "idle" /\ res' = "err"
+  /\ hist' = Log([op |-> "append", id |-> cur.id, sz |-> cur.sz, res |-> "nospace", disk |-> Snap])
+  /\ UNCHANGED <<disk, W, refAct, cur, ri, after, used, acked, nextId, fault, nFaults, nCrash, nRestart, nObst, nOverlap, ref, rolls>>
+
 EncFail(k, os) ==
-  /\ pc = "write" /\ nEnc < MaxEncFail /\ k <= cur.sz
+  /\ pc = "write" /\ disk.act.k # "full" /\ nEnc < MaxEncFail /\ k <= cur.sz
   /\ os => (OsFail /\ cur.sz > BufFloor /\ k >= 1 /\ k < cur.sz)
   /\ nEnc' = nEnc + 1
   /\ IF os
@@ -282,7 +300,7 @@ Ack ==
 \* the size it saw when it opened (the documentation says as much: the estimate "may be inaccurate if another
 \* process has modified the file"), so exact accounting (C06) is claimed for histories without an overlap only.
 Overlap(sz) ==
-  /\ pc = "idle" /\ AppendMode /\ writer.open /\ writer.buf = <<>> /\ fault = NoFault
+  /\ pc = "idle" /\ disk.act.k = "file" /\ AppendMode /\ writer.open /\ writer.buf = <<>> /\ fault = NoFault
   /\ nOverlap < MaxOverlap /\ nextId <= MaxRec /\ sz > 0
   /\ CASE Trig = "size" -> writer.len + sz <= Limit
        [] Trig = "startup" -> used
@@ -341,13 +359,15 @@ Stop ==
   /\ pc = "idle" /\ nRestart < MaxRestart /\ nextId <= MaxRec
   /\ nRestart' = nRestart + 1
   /\ pc' = "down" /\ writer' = Closed /\ res' = "none"
-  /\ disk' = Flushed(disk) /\ W' = W \o writer.buf /\ refAct' = refAct \o writer.buf
+  /\ IF disk.act.k = "full" THEN UNCHANGED <<disk, W, refAct>>       \* the flush of the drop fails silently
+     ELSE disk' = Flushed(disk) /\ W' = W \o writer.buf /\ refAct' = refAct \o writer.buf
   /\ hist' = Log([op |-> "stop"])
   /\ UNCHANGED <<cur, ri, after, used, acked, nextId, fault, nFaults, nCrash, nObst, nEnc, nOverlap, ref, rolls>>
 
 Next == (\E s \in Sizes : Start(s)) \/ Build \/ GetWriter1 \/ PreTrig \/ RotStep \/ GetWriter2 \/ Write
-        \/ PostTrig \/ Ack \/ (\E k \in {0, 1, cur.sz} : EncFail(k, FALSE)) \/ (\E k \in {1, 2} : EncFail(k, TRUE)) \/ (\E s \in Sizes : Overlap(s)) \/ ArmFault \/ Obstruct \/ Unobstruct \/ Crash \/ Stop
+        \/ WriteNoSpace \/ PostTrig \/ Ack \/ (\E k \in {0, 1, cur.sz} : EncFail(k, FALSE)) \/ (\E k \in {1, 2} : EncFail(k, TRUE)) \/ (\E s \in Sizes : Overlap(s)) \/ ArmFault \/ Obstruct \/ Unobstruct \/ Crash \/ Stop
 Spec == Init /\ [][Next]_vars
+ASSUME ActFull => (Trig = "size" /\ MaxOverlap = 0 /\ 0 \notin Sizes)     \* (a trigger consulted before the write is not the subject here)
 
 Quiescent == pc \in {"idle", "down"}
 Clean == nFaults = 0 /\ nCrash = 0 /\ nObst = 0
@@ -377,6 +397,8 @@ QuietBuffer == (nEnc = 0) => writer.buf = <<>>
 \* after every acknowledged append the active file holds at most Limit units or was just rotated away
 SizeBound == (nOverlap = 0 /\ Trig = "size" /\ pc = "idle" /\ res = "ok" /\ writer.open) => Size(disk.act) <= Limit
 \* ---------------------------------------------------------------- C17
+\* a name that cannot be written is never rolled away and nothing is ever acknowledged on it
+FullStays == ActFull => (disk.act = Full /\ rolls = 0 /\ acked = {} /\ pc \notin {"posttrig", "rot", "remove"})
 AtMostOneRoll == Trig = "startup" => rolls <= 1
 TypeOK == pc \in {"down", "idle", "gw1", "pretrig", "rot", "remove", "gw2", "write", "posttrig", "ack"}
 =============================================================================
